@@ -6,6 +6,7 @@ any linearly ordered field, for all inputs.  Helper lemmas are in Lemmas/Wave.le
 The theorems audited by the check are listed in harness/props/c19.py.
 -/
 import PydlVerif.Lemmas.Wave
+import PydlVerif.Lemmas.WaveRev
 import Mathlib.Analysis.SpecialFunctions.Log.Basic
 
 set_option linter.unusedSectionVars false
@@ -362,6 +363,211 @@ theorem filter_linear_masked (a b : K) (m : List Bool) (r f g : List K) (hm : m.
   rw [maskInterp_linear a b m f g hlen]
   exact filter_linear a b r _ _ (by rw [maskInterp_length m f hm, maskInterp_length m g (hm.trans hlen), hlen])
 
+/-! ## extension round -/
+
+/-! ### airtovac / vactoair: mixed arrays, round trip of an array, monotonicity -/
+
+/-- **mixed array**: an array with elements on both sides of 2000 Å is converted element by element -
+those below are returned unchanged, the others go through the two iterations / the division -/
+theorem array_mixed (xs : List K) :
+    airtovacArr none xs = xs.map (fun a => if a < 2000 then a else a * fact (a * fact a)) ∧
+    vactoairArr none xs = xs.map (fun v => if v < 2000 then v else v / fact v) := by
+  constructor
+  · rw [airtovacArr, array_is_map airtovac1 (fun a h => (below_2000_identity a h).1)]
+    exact List.map_congr_left (fun a _ => airtovac1_eq a)
+  · rw [vactoairArr, array_is_map vactoair1 (fun a h => (below_2000_identity a h).2)]
+    exact List.map_congr_left (fun a _ => vactoair1_eq a)
+
+/-- the scalar round trip `vactoair(airtovac a)` is within `2·10⁻⁸` for EVERY `a` (exact below 2000 Å) -/
+theorem roundtrip_air_all (a : K) : |vactoair1 (airtovac1 a) - a| ≤ 2 / 100000000 := by
+  by_cases h : a < 2000
+  · rw [(below_2000_identity a h).1, (below_2000_identity a h).2, sub_self, abs_zero]; norm_num
+  · exact (roundtrip_bound a).1 (not_lt.mp h)
+
+/-- **round trip of a mixed array**: `vactoair(airtovac(xs))` is the scalar round trip of every element,
+hence within `2·10⁻⁸ Å` of `xs` elementwise, whatever the mixture of elements below and above 2000 Å;
+`airtovac(vactoair(xs))` likewise for the elements with `vactoair v ≥ 2000` or `v < 2000` -/
+theorem roundtrip_array (xs : List K) :
+    vactoairArr none (airtovacArr none xs) = xs.map (fun a => vactoair1 (airtovac1 a)) ∧
+    airtovacArr none (vactoairArr none xs) = xs.map (fun v => airtovac1 (vactoair1 v)) ∧
+    (∀ a ∈ xs, |vactoair1 (airtovac1 a) - a| ≤ 2 / 100000000) ∧
+    (∀ v ∈ xs, (v < 2000 ∨ 2000 ≤ vactoair1 v) → |airtovac1 (vactoair1 v) - v| ≤ 2 / 100000000) := by
+  have ha := array_is_map (K := K) airtovac1 (fun a h => (below_2000_identity a h).1)
+  have hv := array_is_map (K := K) vactoair1 (fun a h => (below_2000_identity a h).2)
+  refine ⟨?_, ?_, fun a _ => roundtrip_air_all a, ?_⟩
+  · rw [airtovacArr, vactoairArr, ha, hv, List.map_map]; rfl
+  · rw [airtovacArr, vactoairArr, hv, ha, List.map_map]; rfl
+  · intro v _ h
+    rcases h with h | h
+    · rw [(below_2000_identity v h).2, (below_2000_identity v h).1, sub_self, abs_zero]; norm_num
+    · exact (roundtrip_bound v).2 h
+
+/-- **airtovac is strictly increasing** on the whole line: identity below 2000 Å, a jump upwards at the
+guard (`vac_gt_air`), and above it `a·F(a·F(a))` increases because `F` is Lipschitz with constant `578/a³` -/
+theorem airtovac_strict_mono (x y : K) (hxy : x < y) : airtovac1 x < airtovac1 y := by
+  by_cases hy : y < 2000
+  · rw [(below_2000_identity y hy).1, (below_2000_identity x (lt_trans hxy hy)).1]; exact hxy
+  · have hy' : 2000 ≤ y := not_lt.mp hy
+    by_cases hx : x < 2000
+    · rw [(below_2000_identity x hx).1]
+      exact lt_trans (lt_of_lt_of_le hx hy') (vac_gt_air y hy').1
+    · rw [airtovac1_eq, airtovac1_eq, if_neg hx, if_neg hy]
+      exact airtovac_mono_aux (not_lt.mp hx) hxy
+
+/-- **vactoair is strictly increasing on `[2000, ∞)`** (and, being the identity, below 2000 Å).  It is NOT
+increasing across the guard: `vactoair 2000 ≈ 1999.35 < 1999.9 = vactoair 1999.9` (example below). -/
+theorem vactoair_strict_mono_above (x y : K) (hx : 2000 ≤ x) (hxy : x < y) : vactoair1 x < vactoair1 y := by
+  rw [vactoair1_eq, vactoair1_eq, if_neg (not_lt.mpr hx), if_neg (not_lt.mpr (le_trans hx hxy.le))]
+  exact vactoair_mono_aux hx hxy
+
+theorem vactoair_strict_mono_below (x y : K) (hy : y < 2000) (hxy : x < y) : vactoair1 x < vactoair1 y := by
+  rw [(below_2000_identity y hy).2, (below_2000_identity x (lt_trans hxy hy)).2]; exact hxy
+
+/-- **answering in the caller's unit preserves the order**: for a Quantity array in a unit of `k > 0` Å with an
+element at or above 2000 Å, two elements `x < y` (both at or above 2000 Å for vactoair) keep their order -/
+theorem units_order_preserving (k : K) (hk : 0 < k) (x y : K) (hxy : x < y) :
+    airtovac1 (x * k) * (1 / k) < airtovac1 (y * k) * (1 / k) ∧
+    (2000 ≤ x * k → vactoair1 (x * k) * (1 / k) < vactoair1 (y * k) * (1 / k)) := by
+  have hk' : 0 < 1 / k := by positivity
+  have hxy' : x * k < y * k := mul_lt_mul_of_pos_right hxy hk
+  exact ⟨mul_lt_mul_of_pos_right (airtovac_strict_mono _ _ hxy') hk',
+         fun h => mul_lt_mul_of_pos_right (vactoair_strict_mono_above _ _ h hxy') hk'⟩
+
+/-! ### filter_thru: the weight image as the code computes it -/
+
+/-- `vactoair` of a whole image is the scalar conversion of every pixel (the early return for an image
+entirely below 2000 Å returns the same values) -/
+theorem toairImg_eq (img : List (List K)) :
+    toairImg true img = img.map (List.map vactoair1) ∧ toairImg false img = img := by
+  constructor
+  · simp only [toairImg, if_true, vactoairArr]
+    rw [array_is_map vactoair1 (fun a h => (below_2000_identity a h).2)]
+    exact reshapeLike_map vactoair1 img
+  · simp [toairImg]
+
+/-- **`toair` only changes the wavelengths at which the response is read**: with the same fitted
+`d log λ` image, `filter_thru(…, toair=True)` on `wave` is `filter_thru(…, toair=False)` on `vactoair(wave)` -/
+theorem toair_only_wavelengths (lds : List (List K)) (curves : List (List (K × K))) (wave : List (List K))
+    (masks : Option (List (List Bool))) (flux : List (List K)) :
+    filterThru true lds curves wave masks flux
+      = filterThru false lds curves (wave.map (List.map vactoair1)) masks flux := by
+  simp only [filterThru, (toairImg_eq wave).1, (toairImg_eq (wave.map (List.map vactoair1))).2]
+
+/-- what one band of one trace is, when the shapes agree: the normalised sum `filterMean` over the weights
+`|ld| · np.interp(w, curve)` and the (mask-interpolated) flux - so every `filter_*` theorem above applies
+to the weights the code computes -/
+theorem bandFlux_ok (ld : List K) (x0 f0 : K) (rest : List (K × K)) (w : List K) (mask : Option (List Bool))
+    (f : List K) (h1 : ld.length = w.length) (h2 : f.length = w.length) :
+    bandFlux ld ((x0, f0) :: rest) w mask f
+      = .ok (filterMean (weightsOf ld x0 f0 rest w) (match mask with | none => f | some m => maskInterp m f)) := by
+  simp only [bandFlux, weightRow, if_pos h1, if_pos h2]
+  rfl
+
+/-- **the weights are ≥ 0 whenever the filter response is ≥ 0** -/
+theorem weights_nonneg (ld : List K) (x0 f0 : K) (rest : List (K × K)) (w : List K)
+    (hc : ∀ q ∈ (x0, f0) :: rest, 0 ≤ q.2) : ∀ v ∈ weightsOf ld x0 f0 rest w, 0 ≤ v := by
+  unfold weightsOf
+  apply zipWith_mem_imp
+  intro d x _
+  rw [absS_eq]
+  exact mul_nonneg (abs_nonneg d) (npInterp_nonneg x0 f0 rest hc x)
+
+/-- **pixels outside the filter curve get weight 0**: filter_thru passes neither `left` nor `right` to
+`np.interp`, so a pixel left of the first / from the last curve wavelength on gets `|ld|·fp[0]` / `|ld|·fp[-1]` -
+zero exactly when the curve starts and ends at zero response (the harness checks that of the five files) -/
+theorem weights_zero_outside (ld : List K) (x0 f0 : K) (rest : List (K × K)) (w : List K)
+    (h0 : f0 = 0) (hl : (((x0, f0) :: rest).getLast (List.cons_ne_nil _ _)).2 = 0)
+    (hw : ∀ x ∈ w, x < x0 ∨ ∀ q ∈ (x0, f0) :: rest, q.1 ≤ x) : ∀ v ∈ weightsOf ld x0 f0 rest w, v = 0 := by
+  unfold weightsOf
+  apply zipWith_mem_imp
+  intro d x hx
+  rcases hw x hx with h | h
+  · rw [npInterp_left x0 f0 rest x h, h0, mul_zero]
+  · rw [npInterp_right x0 f0 rest x h, hl, mul_zero]
+
+/-- **no overlap, real weights**: a trace whose (air or vacuum) wavelengths all lie outside the curve gives
+exactly 0 in that band, whatever the flux, the mask and the fitted `d log λ` -/
+theorem bandflux_no_overlap (ld : List K) (x0 f0 : K) (rest : List (K × K)) (w : List K) (mask : Option (List Bool))
+    (f : List K) (h1 : ld.length = w.length) (h2 : f.length = w.length)
+    (h0 : f0 = 0) (hl : (((x0, f0) :: rest).getLast (List.cons_ne_nil _ _)).2 = 0)
+    (hw : ∀ x ∈ w, x < x0 ∨ ∀ q ∈ (x0, f0) :: rest, q.1 ≤ x) :
+    bandFlux ld ((x0, f0) :: rest) w mask f = .ok 0 := by
+  rw [bandFlux_ok ld x0 f0 rest w mask f h1 h2, filterMean_eq,
+    dot_zero _ _ (weights_zero_outside ld x0 f0 rest w h0 hl hw)]
+  simp
+
+/-- **between minimum and maximum, real weights**: for a non-negative filter curve and a band that overlaps
+(`Σ weights > 0`), the band flux computed from the wavelength image lies within the bounds of the flux -/
+theorem bandflux_between_min_max (lo hi : K) (ld : List K) (x0 f0 : K) (rest : List (K × K)) (w f : List K)
+    (h1 : ld.length = w.length) (h2 : f.length = w.length) (hc : ∀ q ∈ (x0, f0) :: rest, 0 ≤ q.2)
+    (hs : 0 < (weightsOf ld x0 f0 rest w).sum) (hf : ∀ x ∈ f, lo ≤ x ∧ x ≤ hi) :
+    ∃ v, bandFlux ld ((x0, f0) :: rest) w none f = .ok v ∧ lo ≤ v ∧ v ≤ hi := by
+  refine ⟨_, bandFlux_ok ld x0 f0 rest w none f h1 h2, ?_⟩
+  exact filter_between_min_max lo hi _ f (by rw [weightsOf_length ld x0 f0 rest w h1, h2])
+    (weights_nonneg ld x0 f0 rest w hc) hs hf
+
+/-- the same with a mask: bounds of the unmasked flux values -/
+theorem bandflux_between_min_max_masked (lo hi : K) (ld : List K) (x0 f0 : K) (rest : List (K × K)) (w f : List K)
+    (m : List Bool) (hm : m.length = f.length) (hg : false ∈ m)
+    (h1 : ld.length = w.length) (h2 : f.length = w.length) (hc : ∀ q ∈ (x0, f0) :: rest, 0 ≤ q.2)
+    (hs : 0 < (weightsOf ld x0 f0 rest w).sum) (hf : ∀ p ∈ goodsFrom 0 m f, lo ≤ p.2 ∧ p.2 ≤ hi) :
+    ∃ v, bandFlux ld ((x0, f0) :: rest) w (some m) f = .ok v ∧ lo ≤ v ∧ v ≤ hi := by
+  refine ⟨_, bandFlux_ok ld x0 f0 rest w (some m) f h1 h2, ?_⟩
+  exact filter_between_min_max_masked lo hi m _ f hm (by rw [weightsOf_length ld x0 f0 rest w h1, h2])
+    hg (weights_nonneg ld x0 f0 rest w hc) hs hf
+
+/-- a constant spectrum gives the constant in every overlapping band, real weights -/
+theorem bandflux_const (c : K) (ld : List K) (x0 f0 : K) (rest : List (K × K)) (w : List K)
+    (h1 : ld.length = w.length) (hs : 0 < (weightsOf ld x0 f0 rest w).sum) :
+    bandFlux ld ((x0, f0) :: rest) w none (List.replicate w.length c) = .ok c := by
+  rw [bandFlux_ok ld x0 f0 rest w none _ h1 (by simp)]
+  have := filter_const c (weightsOf ld x0 f0 rest w) hs
+  rw [weightsOf_length ld x0 f0 rest w h1] at this
+  simp only [this]
+
+/-- **reversal invariance** (a statement about sums): the band mean does not depend on the order in which
+the pixels are stored when weights and flux are reversed together -/
+theorem filter_reverse_invariant (r f : List K) (h : f.length = r.length) :
+    filterMean r.reverse f.reverse = filterMean r f := filterMean_reverse r f h
+
+/-- the same for the weights the code computes: a spectrum stored red-to-blue (wavelengths, flux and the
+fitted `|d log λ|` reversed along the pixel axis) gives the same band flux.  NB: the *real* fit of the
+reversed solution is the fit of the backward instead of the forward differences, i.e. `ld` shifted by one
+pixel - equal for a log-linear solution, different at the level of the curvature otherwise. -/
+theorem bandflux_reverse_invariant (ld : List K) (curve : List (K × K)) (w f : List K)
+    (h1 : ld.length = w.length) (h2 : f.length = w.length) :
+    bandFlux ld.reverse curve w.reverse none f.reverse = bandFlux ld curve w none f := by
+  cases curve with
+  | nil => rfl
+  | cons q rest =>
+    obtain ⟨x0, f0⟩ := q
+    rw [bandFlux_ok ld x0 f0 rest w none f h1 h2,
+      bandFlux_ok ld.reverse x0 f0 rest w.reverse none f.reverse (by simp [h1]) (by simp [h2]),
+      weightsOf_reverse ld x0 f0 rest w h1]
+    simp only []
+    rw [filterMean_reverse _ f (by rw [weightsOf_length ld x0 f0 rest w h1, h2])]
+
+/-- **the mask interpolation commutes with reversing the pixel order** (linear interpolation between the
+neighbouring unmasked pixels and constant ends are symmetric) -/
+theorem maskInterp_reverse_invariant (m : List Bool) (y : List K) (h : m.length = y.length) :
+    maskInterp m.reverse y.reverse = (maskInterp m y).reverse := maskInterp_reverse m y h
+
+/-- **reversal invariance with a mask**: wavelengths, flux, mask and fitted `|d log λ|` reversed together give
+the same band flux -/
+theorem bandflux_reverse_invariant_masked (ld : List K) (curve : List (K × K)) (w f : List K) (m : List Bool)
+    (hm : m.length = f.length) (h1 : ld.length = w.length) (h2 : f.length = w.length) :
+    bandFlux ld.reverse curve w.reverse (some m.reverse) f.reverse = bandFlux ld curve w (some m) f := by
+  cases curve with
+  | nil => rfl
+  | cons q rest =>
+    obtain ⟨x0, f0⟩ := q
+    rw [bandFlux_ok ld x0 f0 rest w (some m) f h1 h2,
+      bandFlux_ok ld.reverse x0 f0 rest w.reverse (some m.reverse) f.reverse (by simp [h1]) (by simp [h2]),
+      weightsOf_reverse ld x0 f0 rest w h1]
+    simp only []
+    rw [maskInterp_reverse m f hm,
+      filterMean_reverse _ _ (by rw [maskInterp_length m f hm, weightsOf_length ld x0 f0 rest w h1, h2])]
+
 end
 
 /-! ## non-vacuity: the hypotheses of the theorems are met by concrete non-trivial inputs -/
@@ -402,6 +608,43 @@ example : (0 : ℝ) < ([1, 2, 0] : List ℝ).sum ∧ (∀ w ∈ ([1, 2, 0] : Lis
 /-- the unmasked pixels of a masked row, as the masked theorems see them -/
 example : goodsFrom 0 [false, true, false] ([1, 5, 3] : List ℝ) = [(0, 1), (2, 3)] := by
   rfl
+
+/-- vactoair is not increasing across the 2000 Å guard (the reason `vactoair_strict_mono_above` starts at
+2000 Å): `vactoair 2000 < vactoair 1999.9` -/
+example : vactoair1 (2000 : ℝ) < vactoair1 (19999 / 10 : ℝ) := by
+  rw [(C19.below_2000_identity (19999 / 10 : ℝ) (by norm_num)).2, vactoair1_eq, if_neg (by norm_num)]
+  have h : (1 : ℝ) + 3 / 10000 ≤ fact (2000 : ℝ) := by
+    show _ ≤ ciddor (sigma2 (2000 : ℝ))
+    rw [sigma2_eq, ciddor_eq]; norm_num
+  rw [div_lt_iff₀ (by linarith)]
+  nlinarith
+
+/-- a triangular curve that starts and ends at zero response, a wavelength row that crosses it (first and
+last pixel outside), a fitted `d log λ` row of mixed sign: the weights are `[0, 1/2, 1, 1/2, 0]`, their sum is
+positive (the hypothesis of `bandflux_between_min_max` / `bandflux_const`), and the hypotheses of
+`weights_nonneg` hold -/
+example : weightsOf ([-1, 1, 1, -1, 1] : List ℝ) 1 0 [(2, 1), (3, 0)] [1 / 2, 3 / 2, 2, 5 / 2, 7 / 2]
+      = [0, 1 / 2, 1, 1 / 2, 0] ∧
+    (∀ q ∈ ([(1, 0), (2, 1), (3, 0)] : List (ℝ × ℝ)), 0 ≤ q.2) := by
+  constructor
+  · simp only [weightsOf, List.zipWith_cons_cons, List.zipWith_nil_right, absS_eq, npInterp, interpGo, scalar_beq]
+    norm_num
+  · intro q hq
+    simp only [List.mem_cons, List.not_mem_nil, or_false] at hq
+    rcases hq with rfl | rfl | rfl <;> norm_num
+
+/-- a row entirely outside that curve meets the hypothesis of `weights_zero_outside` / `bandflux_no_overlap` -/
+example : ∀ x ∈ ([1 / 2, 7 / 2, 4] : List ℝ), x < 1 ∨ ∀ q ∈ ([(1, 0), (2, 1), (3, 0)] : List (ℝ × ℝ)), q.1 ≤ x := by
+  intro x hx
+  simp only [List.mem_cons, List.not_mem_nil, or_false] at hx
+  rcases hx with rfl | rfl | rfl
+  · left; norm_num
+  · right; intro q hq
+    simp only [List.mem_cons, List.not_mem_nil, or_false] at hq
+    rcases hq with rfl | rfl | rfl <;> norm_num
+  · right; intro q hq
+    simp only [List.mem_cons, List.not_mem_nil, or_false] at hq
+    rcases hq with rfl | rfl | rfl <;> norm_num
 
 end
 end PydlVerif.C19
